@@ -15,6 +15,7 @@ import (
 	"encoding/json"
 	"errors"
 	"fmt"
+	"math/rand/v2"
 	"os"
 	"os/exec"
 	"path/filepath"
@@ -26,6 +27,8 @@ import (
 
 	"github.com/anishathalye/porcupine"
 	"github.com/transparency-dev/witness/internal/persistence"
+	"github.com/transparency-dev/witness/internal/verif/kit/asm"
+	"github.com/transparency-dev/witness/internal/verif/kit/asmunits"
 	"github.com/transparency-dev/witness/internal/verif/kit/ev"
 	"github.com/transparency-dev/witness/internal/verif/kit/gen"
 	"github.com/transparency-dev/witness/internal/verif/kit/lin"
@@ -402,6 +405,19 @@ func main() {
 	run.Floor("histories_checked", 50000)
 	run.Floor("stress_histories", 200)
 	run.Floor("storage_error_outcomes", 100)
+	if err := asm.SetupTLS(dir); err != nil {
+		run.Inconclusive("stub bastion certificate: " + err.Error())
+		return
+	}
+	// the assembled service (omniwitness.Main + bastion endpoint): overlapping pairs judged with porcupine, and
+	// a feeder update parked inside its storage write
+	run.Floor("assembled_pairs", 30)
+	run.Floor("assembled_pairs_second_answered_while_first_parked", 15)
+	run.Floor("assembled_parked_feeder_updates", 3)
+	if os.Getenv("VERIF_C05_SCEN") == "" {
+		run.Units("asm_pairs", run.Pick(8, 64), 8, func(unit int64, r *rand.Rand) { asmunits.Pairs(run, unit, r, dir) })
+		run.Units("asm_late", run.Pick(4, 32), 4, func(unit int64, r *rand.Rand) { asmunits.LateEffect(run, unit, r) })
+	}
 	n := runtime.NumCPU()
 	self, _ := os.Executable()
 	var wg sync.WaitGroup
